@@ -299,6 +299,20 @@ def oracle_repr(ck, rng):
             if not ok:
                 ck.violation(what=detail, inp={"matrix": M.tolist(), "pair": pair},
                              key=from_axes_key(M, pair, batch=False), oracle="from_axes", measured=detail)
+            # the same axes at another length (only their directions matter), for the orientations the unit-length call got right
+            if ok:
+                f1, f2 = float(rng.choice([2.0, 0.5, 7.0, 0.3])), float(rng.choice([2.0, 0.25, 3.0]))
+                kw2 = {k_: (None if v_ is None else v_ * (f1 if j_ % 2 else f2)) for j_, (k_, v_) in enumerate(kw.items())}
+                try:
+                    m4 = Molecules.from_axes(pos, **kw2)
+                    ok2 = np.allclose(m4.rotator.as_matrix()[0], M, atol=1e-5)
+                    detail = "" if ok2 else f"from_axes({pair}) with axes of lengths {f2}/{f1} returned another orientation than with unit axes"
+                except Exception as e:  # noqa
+                    ok2, detail = False, f"from_axes({pair}) with non-unit axes raised {type(e).__name__}: {e}"
+                ck.oracle_count("from_axes", 1, 1)
+                if not ok2:
+                    ck.violation(what=detail, inp={"matrix": M.tolist(), "pair": pair, "lengths": [f2, f1]}, key={"site": "from_axes", "class": "non-unit-axes"},
+                                 oracle="from_axes", measured=detail)
     # batches mixing generic and degenerate pairs
     for i in range(6 if ck.tier == "quick" else 60):
         mats = [Rotation.random(random_state=int(rng.integers(0, 2**31))).as_matrix() for _ in range(3)]
